@@ -165,7 +165,22 @@ pub fn tree(t: &mut Tape, ty: Ty, depth: usize) -> Expr {
             7 => case(t, Ty::Float, d),
             _ => Expr::bin(BinOp::Pow, Expr::bin(BinOp::Pow, tree(t, Ty::Int, 0), Expr::Lit(Val::Int(2))), Expr::Lit(Val::Int(t.range(0, 2)))),
         },
-        Ty::Bool => match t.choose(9) {
+        Ty::Bool => match t.choose(10) {
+            9 => {
+                // two-sided range check over one operand: both bound orders, inclusive or strict
+                let ty = num(t);
+                let e = tree(t, ty, d.min(1));
+                let lo = t.range(-2, 2);
+                let hi = lo + t.range(0, 3);
+                let (ge, le) = if t.chance(3, 4) { (BinOp::Gte, BinOp::Lte) } else { (BinOp::Gt, BinOp::Lt) };
+                let lower = Expr::bin(ge, e.clone(), Expr::int(lo));
+                let upper = Expr::bin(le, e, Expr::int(hi));
+                if t.chance(1, 2) {
+                    Expr::bin(BinOp::And, lower, upper)
+                } else {
+                    Expr::bin(BinOp::And, upper, lower)
+                }
+            }
             0 | 1 => {
                 let op = *t.pick(&[BinOp::Eq, BinOp::Ne, BinOp::Lt, BinOp::Gt, BinOp::Lte, BinOp::Gte]);
                 let ty = *t.pick(&[Ty::Int, Ty::Int, Ty::Float, Ty::Text]);
@@ -612,6 +627,34 @@ pub fn check(case: &Case, known: &Known, db: &Db) -> Outcome {
         }
         if !cell_eq(&expect, got) && bad.is_none() {
             bad = Some((i, expect, got.clone()));
+        }
+    }
+    // a boolean tree is also judged as the condition of a filter (the SQL back-end normalises
+    // conditions of filters and joins separately): the surviving ids are the rows where it is true
+    if bad.is_none() && amb == 0 {
+        let all_bool = rows.iter().all(|r| matches!(interp.scalar(&case.expr, r), Ok(Val::Bool(_)) | Ok(Val::Null)));
+        if all_bool {
+            let fsrc = format!("from v | filter {text} | select {{id}}");
+            if let Compiled::Sql(fsql) = util::compile(&fsrc, dialect) {
+                if let Ok(fres) = exec::run(db, &fsql) {
+                    let mut got: Vec<i64> = fres.rows.iter().filter_map(|r| if let Val::Int(i) = &r[0] { Some(*i) } else { None }).collect();
+                    got.sort();
+                    let mut want: Vec<i64> = vec![];
+                    for (i, r) in rows.iter().enumerate() {
+                        if matches!(interp.scalar(&case.expr, r), Ok(Val::Bool(true))) {
+                            want.push(i as i64 + 1);
+                        }
+                    }
+                    if got != want {
+                        let detail = json!({"source": fsrc, "sql": fsql, "target": case.target, "expected_ids": want, "got_ids": got});
+                        let mut o = Outcome::fail("as a filter condition the tree keeps other rows than the documented operand tree", detail);
+                        if let Some((id, what)) = attribute(&interp) {
+                            o.verdict = Verdict::Known(id, what);
+                        }
+                        return o;
+                    }
+                }
+            }
         }
     }
     let mut out = Outcome::pass();
